@@ -43,3 +43,14 @@ Print Assumptions C05_component_bits.
 (* instance: compressed_speed_distance [0x36, 0x03, ...] -> speed bits = 822 *)
 Example C05_pull_instance : fst (pull (store_from_slice [0x36; 0x03; 0x12] TU8 1 0 0 zero_store) 12) = 822.
 Proof. vm_compute. reflexivity. Qed.
+
+(* frame: a field that is no destination is left alone.  A destination number of message m is a number some component of some
+   field or sub-field of m in the profile expands into ([dest], read off the factory table).  For fields as the decoder builds them
+   (components and sub-fields as in the factory), whatever the values, the accumulator history, the sub-field substitutions chosen
+   and the nesting depth: a field whose number is no destination number is, after expansion, at the same position and identical. *)
+From Fit Require Import Proofs.ExpandFrame.
+Theorem C05_non_destination_unchanged : forall m k i fs acc j f,
+  Forall (fun f => fb_comps (f_fb f) = fb_comps (f_fb (create_field m (f_num f))) /\ fb_subs (f_fb f) = fb_subs (f_fb (create_field m (f_num f)))) fs ->
+  nth_opt fs j = Some f -> ~ dest m (f_num f) -> nth_opt (fst (expand_all k i m fs acc)) j = Some f.
+Proof. exact decoded_non_destination_unchanged. Qed.
+Print Assumptions C05_non_destination_unchanged.
